@@ -2,12 +2,23 @@
 import os, subprocess
 
 DEFAULT_TIMEOUT = {"quick": 600, "thorough": 3600}
-DEFAULT_MEM_GB = 12
-MAX_JOBS = 10
+DEFAULT_MEM_GB = 40
+MAX_JOBS = 6
 KNOWN_EXCLUSION_FLAGS = []  # names of `pub const X: bool` switches in .work/gen/known.rs
 
 MODULES = {
     "ext.c08": {"crate": "ext", "modpath": "c08_resolver", "sympath": "sym", "pbfile": "ext.rs"},
+    # in-crate harness modules (child modules of the module they inspect, via the cfg(kani) hooks)
+    "parser.scanner": {"crate": "parser", "modpath": "scanner::verif_harness", "sympath": "scanner::verif_harness::sym", "pbfile": "scanner.rs"},
+    "parser.input_str": {"crate": "parser", "modpath": "input::str::verif_harness", "sympath": "input::str::verif_harness::sym", "pbfile": "input_str.rs"},
+    "parser.input_buffered": {"crate": "parser", "modpath": "input::buffered::verif_harness", "sympath": "input::buffered::verif_harness::sym", "pbfile": "input_buffered.rs"},
+    "saphyr.emitter": {"crate": "saphyr", "modpath": "emitter::verif_harness", "sympath": "emitter::verif_harness::sym", "pbfile": "emitter.rs"},
+    "saphyr.encoding": {"crate": "saphyr", "modpath": "encoding::verif_harness", "sympath": "encoding::verif_harness::sym", "pbfile": "encoding.rs"},
+    "saphyr.yaml": {"crate": "saphyr", "modpath": "yaml::verif_harness", "sympath": "yaml::verif_harness::sym", "pbfile": "yaml.rs"},
+    "saphyr.yaml_owned": {"crate": "saphyr", "modpath": "yaml_owned::verif_harness", "sympath": "yaml_owned::verif_harness::sym", "pbfile": "yaml_owned.rs"},
+    "saphyr.loader": {"crate": "saphyr", "modpath": "loader::verif_harness", "sympath": "loader::verif_harness::sym", "pbfile": "loader.rs"},
+    # mode S: the parser crate regenerated from /repo with std HashMap -> association list in parser.rs
+    "lm.parser": {"crate": "parser_lm", "modpath": "parser::verif_harness", "sympath": "parser::verif_harness::sym", "pbfile": "parser.rs"},
 }
 
 F64_STUB = "<f64 as FromStr>::from_str -> contract stub (std-documented grammar, nondeterministic non-NaN value / inf / nan by class)"
@@ -83,5 +94,76 @@ PROPERTIES["C08"] = {
 }
 
 
+STATES0 = ["stream_start", "implicit_document_start", "document_start", "document_content", "document_end"]
+STATES_D = ["block_node", "block_sequence_first_entry", "block_sequence_entry", "indentless_sequence_entry",
+            "block_mapping_first_key", "block_mapping_key", "block_mapping_value", "flow_sequence_first_entry",
+            "flow_sequence_entry", "flow_sequence_entry_mapping_key", "flow_sequence_entry_mapping_value",
+            "flow_sequence_entry_mapping_end", "flow_mapping_first_key", "flow_mapping_key", "flow_mapping_value",
+            "flow_mapping_empty_value", "block_node_tags"]
+STATES = STATES0 + [x + "_d0" for x in STATES_D] + [x + "_d2" for x in STATES_D]
+PARSER_FUNCS = ["saphyr_parser::parser::Parser::parse", "Parser::state_machine", "Parser::stream_start", "Parser::document_start",
+                "Parser::explicit_document_start", "Parser::parser_process_directives", "Parser::document_content", "Parser::document_end",
+                "Parser::parse_node", "Parser::register_anchor", "Parser::resolve_tag", "Parser::block_mapping_key", "Parser::block_mapping_value",
+                "Parser::block_sequence_entry", "Parser::indentless_sequence_entry", "Parser::flow_sequence_entry",
+                "Parser::flow_sequence_entry_mapping_key", "Parser::flow_sequence_entry_mapping_value", "Parser::flow_sequence_entry_mapping_end",
+                "Parser::flow_mapping_key", "Parser::flow_mapping_value", "Parser::peek_token", "Parser::scan_next_token", "Parser::fetch_token",
+                "Parser::pop_state", "Parser::push_state", "Scanner::next (injected tokens)"]
+LM_STUB = "std::collections::HashMap in parser.rs -> association-list model (kani/shim/verif_map.rs), validated by running the repository's parser test-suite (incl. 402 yaml-test-suite cases) against the substituted build on every run"
+INJ = "scanner replaced by token injection hook (Scanner::next_token hands out a symbolic token sequence, then a scanner error); every token sequence over-approximates what the scanner can emit"
+PROPERTIES["C02"] = {
+    "level": "model_checking",
+    "level_text": "Inductive step of the event-grammar invariant, decided by bounded model checking of the real parser state machine: for each of the 21 "
+                  "parser states, ONE call of Parser::parse from an ARBITRARY well-formed configuration (state, state stack = DocumentEnd + 0..2 arbitrary "
+                  "continuation entries, arbitrary anchor table/counter) over ALL next-token sequences of up to 5 tokens (21 token kinds) is shown to emit "
+                  "only an event the grammar monitor accepts, to leave a well-formed configuration equal to the monitor's successor, to hand out fresh "
+                  "increasing anchor ids and alias ids that were handed out before. Together with the initial configuration this gives the sentence "
+                  "property for token streams of ANY length (induction argued in DESIGN.md; each step solver-decided).",
+    "level_note": "Scanner side (that FlowMappingStart/End and BlockEnd tokens are paired) is not decided; parser is checked over arbitrary token streams, "
+                  "which over-approximates it. " + LM_STUB + ". Stack entries below the top three are untouched by a step (frame argument, not solved).",
+    "prepare": ["gen_parser"],
+    "harnesses": [H("c02_step_" + st, "lm.parser", PARSER_FUNCS, "state %s x state stack = DocumentEnd + {0, 2} arbitrary continuation entries (10 kinds) x all token sequences <= 5 (21 kinds, payload pool 7) x anchor table over 3 names" % st,
+                    stubs=[LM_STUB, INJ], timeout={"quick": 900, "thorough": 1800}) for st in STATES],
+    "assumptions": [LM_STUB, INJ, "anchor/alias names and tag handles drawn from a fixed pool of 3/7 strings",
+                    "induction over steps and the frame rule for deep stacks are argued, not solved"],
+    "outside": "token-level pairing guarantees of the scanner; push interface (load) recursion; configurations are bounded to 3 visible stack entries",
+}
+
+UTF8 = "every valid UTF-8 buffer of <= %d characters and <= 8 bytes (each character: any scalar value incl. NUL, 1-4 bytes), after lookahead(4)"
+C10_PURE = ["look_ch", "next_char_is", "nth_char_is", "next_2_are", "next_3_are", "next_is_document_indicator", "next_is_document_start",
+            "next_is_document_end", "next_can_be_plain_scalar", "char_classes"]
+C10_BULK = ["skip_ws_to_eol", "skip_while_non_breakz", "skip_while_blank", "fetch_while_is_alpha"]
+PROPERTIES["C10"] = {
+    "level": "model_checking",
+    "level_text": "Differential bounded model checking of the two implementations of the input contract: every method that StrInput overrides is run "
+                  "against the trait's default body (the code BufferedInput and custom inputs execute, here on top of a wrapper that forwards only the "
+                  "required methods) on EVERY valid UTF-8 buffer of up to 4-5 characters / 8 bytes incl. multi-byte characters and NUL; results, "
+                  "reported counts and the remaining input must be equal. The scanner observes its input only through these methods, so method-level "
+                  "equivalence is what makes events, spans and errors identical across back-ends (composition argued).",
+    "level_note": "BufferedInput's own required methods (ring buffer over a char iterator) and buffer-size dependent scanner paths are outside this "
+                  "claim; whole-document event equality is argued by composition, not solved.",
+    "harnesses": [H("c10_" + m, "parser.input_str", ["StrInput::" + m, "Input::" + m + " (default body)"], UTF8 % 4) for m in C10_PURE]
+                 + [H("c10_" + m, "parser.input_str", ["StrInput::" + m, "Input::" + m + " (default body)"], UTF8 % 5) for m in C10_BULK],
+    "assumptions": ["next_2_are/next_3_are are never asked about NUL (the defaults cannot tell NUL padding from a NUL character; all call sites pass literals)",
+                    "next_can_be_plain_scalar is called only when the next character is not blank/break/end (checked call-site precondition, documented)",
+                    "skip_ws_to_eol is called with SkipTabs::Yes or SkipTabs::No only (StrInput asserts this)"],
+    "outside": "buffers longer than 8 bytes; BufferedInput internals; scanner paths that depend on buffer capacity",
+}
+
+
 def run_prepare(step, root, work, log):
+    import time
+    t0 = time.time()
+    if step == "gen_parser":
+        r = subprocess.run(["python3", os.path.join(root, "kani/shim/gen_parser.py")], capture_output=True, text=True)
+        if r.returncode != 0:
+            return False, {"step": step, "error": r.stdout + r.stderr}
+        env = dict(os.environ, CARGO_NET_OFFLINE="true", CARGO_TARGET_DIR=os.path.join(work, "target", "parser_lm", "native"))
+        t = subprocess.run(["cargo", "test", "--offline"], cwd=os.path.join(work, "gen/parser_lm"), capture_output=True, text=True, env=env)
+        out = t.stdout + t.stderr
+        import re
+        passed = sum(int(x) for x in re.findall(r"(\d+) passed", out))
+        failed = sum(int(x) for x in re.findall(r"(\d+) failed", out))
+        ok = t.returncode == 0 and failed == 0 and passed > 400
+        log("  prepare gen_parser: substituted build passes %d repository tests, %d failed (%.0fs)" % (passed, failed, time.time() - t0))
+        return ok, {"step": step, "translation_validation": {"tests_passed_on_substituted_build": passed, "failed": failed}, "wall_s": round(time.time() - t0, 1)}
     return True, {"step": step}
